@@ -85,6 +85,13 @@ func suiteRepeat(c *Ctx) error {
 				_ = pi
 			}
 		}
+		// two functions whose names share their first 300 bytes (generated code has such names): whatever
+		// orders or keys results by name sees them as two names
+		{
+			long := strings.Repeat("VeryLongGeneratedHandlerName", 11)
+			src := "package alpha\n\n" + shapeFn(long+"Alpha", 0) + strings.Replace(shapeFn(long+"Omega", 0), "t += xs[i]", "t -= xs[i]", 1)
+			os.WriteFile(filepath.Join(root, "alpha", "longnames.go"), []byte(src), 0o644)
+		}
 		// one short name in three packages, same shape, overlapping string literals: the signature
 		// indexed from gamma.Dup matches alpha.Dup and beta.Dup equally well but on DIFFERENT
 		// strings, so their alerts differ only in the match details
